@@ -113,7 +113,7 @@ def main(tier):
             e = dyn.expected_of(o)
             key = json.dumps([e["events"], e["ending"]])
             w = Fraction(1)
-            for a, b in o["ws"]:
+            for a, b, _alt in o["ws"]:
                 w *= Fraction(a, b)
             law[key] = law.get(key, Fraction(0)) + w
         if sum(law.values()) != 1:
